@@ -765,7 +765,7 @@ func (tt *termTable) or(x, y *term) *term {
 	return tt.mk(term{op: "or", w: 0, args: []*term{x, y}})
 }
 
-// support returns the variables t depends on, or nil if more than 2.
+// support returns the variables t depends on, or nil if more than 4.
 func (tt *termTable) support(t *term) []int {
 	if t.suppDone {
 		return t.supp
@@ -795,7 +795,7 @@ func (tt *termTable) support(t *term) []int {
 					set = append(set, v)
 				}
 			}
-			if len(set) > 2 {
+			if len(set) > 4 {
 				t.supp = nil
 				return nil
 			}
